@@ -486,6 +486,8 @@ class Interp:
                         v = els[lo]
                     else:
                         v = self.join_many(st, list(els))
+                elif v[0] == 'slice' and v[1].get('elems') is not None and k == 'ci' and not p[2] and p[1] < len(v[1]['elems']):
+                    v = v[1]['elems'][p[1]]          # a slice pattern `[a, b, ..]` on a slice whose first elements are tracked
                 elif v[0] == 'slice':
                     ety = v[1].get('elem_ty')
                     v = self.top(st, ety, 'elem') if ety is not None else None
@@ -990,7 +992,17 @@ class Interp:
         out = St()
         out.iv = {}
         self._jc = {}
-        out.trace = s1.trace
+        if s1.trace == s2.trace:
+            out.trace = s1.trace
+        else:
+            # the recorded events of the two paths differ: keep what they have in common and say so (a rule reading the trace of a joined
+            # state must not take one member's events for the events of all)
+            n = 0
+            for a_, b_ in zip(s1.trace, s2.trace):
+                if a_ != b_:
+                    break
+                n += 1
+            out.trace = s1.trace[:n] + (('joined',),)
         out.loops = {k: max(s1.loops.get(k, 0), s2.loops.get(k, 0)) for k in set(s1.loops) | set(s2.loops)}
         out.notes = s1.notes
         out.lin = tuple(f for f in s1.lin if any(f[0] == g[0] and f[1:] == g[1:] for g in s2.lin))
